@@ -26,14 +26,15 @@ Definition is_ws (c : N) : bool :=
   existsb (N.eqb c) [9; 10; 11; 12; 13; 32; 28; 29; 30; 31; 133; 160]%N.
 Definition first_is (f : N -> bool) (s : str) : bool := match s with c :: _ => f c | [] => false end.
 
-(* patterns: 0 = "a", 1 = "^ab", 2 = "b+", 3 = "\S+", 4 = "\s+" (the flag IGNORECASE changes nothing for the last two) *)
+(* patterns: 0 = "a", 1 = "^ab", 2 = "b+", 3 = "\S+", 4 = "\s+" (the flag IGNORECASE changes nothing for these two), 5 = "(?i)ab" *)
 Definition t_rmatch (re flags : N) (s : str) : bool :=
   match re with
   | 0%N => starts_with (fold_of flags) s_a s
   | 1%N => starts_with (fold_of flags) s_ab s
   | 2%N => starts_with (fold_of flags) s_b s
   | 3%N => first_is (fun c => negb (is_ws c)) s
-  | _ => first_is is_ws s
+  | 4%N => first_is is_ws s
+  | _ => starts_with true s_ab s          (* 5 = "(?i)ab": a global flag written inside the pattern *)
   end.
 Definition t_rsearch (re flags : N) (s : str) : bool :=
   match re with
@@ -41,7 +42,8 @@ Definition t_rsearch (re flags : N) (s : str) : bool :=
   | 1%N => starts_with (fold_of flags) s_ab s
   | 2%N => contains (fold_of flags) s_b s
   | 3%N => existsb (fun c => negb (is_ws c)) s
-  | _ => existsb is_ws s
+  | 4%N => existsb is_ws s
+  | _ => contains true s_ab s
   end.
 
 Definition num_neg (x : num) : num :=
